@@ -2782,15 +2782,30 @@ pub(crate) fn constrain_type(expr: &mut TypedExpr, expected: &Type) -> Result<()
             ExprEnum::Range(from, to, num_ty @ UnsignedNumType::Unspecified),
             Type::Array(elem_ty, _) | Type::ArrayConst(elem_ty, _),
         ) => {
-            // the elements are lowered with the number type stored in the range:
-            if let Type::Unsigned(expected) = elem_ty.as_ref() {
-                if expected.max().is_some_and(|max| *to > *from && *to - 1 > max) {
+            // the elements are lowered with the number type stored in the range (the elements of a
+            // range are never negative and have the same bits in a signed type of the same width):
+            let (lowered_as, max) = match elem_ty.as_ref() {
+                Type::Unsigned(expected) => (Some(*expected), expected.max()),
+                Type::Signed(expected) => {
+                    let same_width = match expected {
+                        SignedNumType::I8 => Some(UnsignedNumType::U8),
+                        SignedNumType::I16 => Some(UnsignedNumType::U16),
+                        SignedNumType::I32 => Some(UnsignedNumType::U32),
+                        SignedNumType::I64 => Some(UnsignedNumType::U64),
+                        SignedNumType::Unspecified => None,
+                    };
+                    (same_width, expected.max().map(|max| max as u64))
+                }
+                _ => (None, None),
+            };
+            if let Some(lowered_as) = lowered_as {
+                if max.is_some_and(|max| *to > *from && *to - 1 > max) {
                     let e = TypeErrorEnum::InvalidRange(*from, *to);
                     return Err(vec![Some(TypeError::new(e, expr.meta))]);
                 }
-                *num_ty = *expected;
+                *num_ty = lowered_as;
                 if let Type::Array(actual, _) | Type::ArrayConst(actual, _) = &mut expr.ty {
-                    **actual = Type::Unsigned(*expected);
+                    **actual = elem_ty.as_ref().clone();
                 }
             }
         }
